@@ -863,11 +863,13 @@ func (c *Client) logs(ctx context.Context, url string, filter *glf.Filter, bm bl
 			return fmt.Errorf("block not found")
 		}
 		b.Lock()
-		if err := sameBlock(b, logs[0].BlockHash, "eth_getLogs"); err != nil {
-			b.Unlock()
-			return err
+		for i := range logs {
+			if err := sameBlock(b, logs[i].BlockHash, "eth_getLogs"); err != nil {
+				b.Unlock()
+				return err
+			}
+			b.Header.Hash.Write(logs[i].BlockHash)
 		}
-		b.Header.Hash.Write(logs[0].BlockHash)
 		tx := b.Tx(k.b)
 		tx.PrecompHash.Write(logs[0].TxHash)
 		for i := range logs {
